@@ -79,6 +79,10 @@ func (k *Keeper) SlashAssets(ctx sdk.Context, parameter *types.SlashInputInfo) (
 	if err != nil {
 		return nil, err
 	}
+	if stakingInfo.StakingAndWaitUnbonding.IsZero() {
+		// nothing is left to slash, and the proportion below would divide by zero
+		return nil, errorsmod.Wrapf(types.ErrValueIsNilOrZero, "the operator has no value to slash, operator:%s", parameter.Operator)
+	}
 	// calculate the new slash proportion
 	newSlashProportion := slashUSDValue.Quo(stakingInfo.StakingAndWaitUnbonding)
 	newSlashProportion = sdkmath.LegacyMinDec(sdkmath.LegacyNewDec(1), newSlashProportion)
